@@ -128,7 +128,7 @@ func c16RenderArgs(args []any) string {
 }
 
 func c16Pure(env *fw.Env) {
-	total := int64(env.Pick(10000, 240000))
+	total := int64(env.Pick(10000, 1200000))
 	for i := int64(0); i < total; i++ {
 		if !env.Mine(i) || !env.Want(i) {
 			continue
